@@ -357,6 +357,8 @@ def run(ctx):
     ctx.sweep(run_case, cases(ctx.tier), chunk=32, name="runs x (reporter + walked collector) x 5 formats")
     ctx.sweep(run_case, empty_container_cases(ctx.tier), chunk=32, name="childless containers with siblings")
     ctx.sweep(run_case, dupname_cases(ctx.tier), chunk=32, name="identical titles on failing/erroring scenarios")
+    ctx.sweep(run_case, (c for c in runcases.nonpass_fault_cases(ctx.tier) if P.size(c[0][0]) <= (2 if ctx.quick else 4)),
+              chunk=32, name="one non-passing step, then a hook fault at every invocation")
     ctx.sweep(run_case, interrupt_cases(ctx.tier), chunk=32,
               name="KeyboardInterrupt inside every feature/rule/scenario/step/tag hook invocation")
     ctx.sweep(run_case, collector_first_cases(ctx.tier), chunk=32,
